@@ -192,11 +192,11 @@ def loop0_inv(vm, env, k):
     fld = lambda x: f(n - 1 - x)
     return [('alignment==G(k)', vm.as_int(env.get('alignment')) == G(k)),
             ('G in alignments', _in(G(k), ALIGNS)),
-            ('partial alignments of passed fields', z3.ForAll([i], z3.Implies(z3.And(0 <= i, i < k), z3.If(
-                st['dyn'](n - 1 - i), z3.And(z3.Not(z3.Select(pan, fld(i))), z3.Select(pa, fld(i)) == G(i)),
-                z3.Select(pan, fld(i)) == z3.Select(st['pre']['partial_alignment#none'], fld(i)))), patterns=[G(i)])),
-            ('fields not yet passed untouched', z3.ForAll([i], z3.Implies(z3.And(k <= i, i < n),
-                z3.Select(pan, fld(i)) == z3.Select(st['pre']['partial_alignment#none'], fld(i))), patterns=[G(i)])),
+            ('partial alignments of passed fields', z3.ForAll([i], z3.Implies(z3.And(n - k <= i, i < n), z3.If(
+                st['dyn'](i), z3.And(z3.Not(z3.Select(pan, f(i))), z3.Select(pa, f(i)) == G(n - 1 - i)),
+                z3.Select(pan, f(i)) == z3.Select(st['pre']['partial_alignment#none'], f(i)))), patterns=[f(i)])),
+            ('fields not yet passed untouched', z3.ForAll([i], z3.Implies(z3.And(0 <= i, i < n - k),
+                z3.Select(pan, f(i)) == z3.Select(st['pre']['partial_alignment#none'], f(i))), patterns=[f(i)])),
             ('statics of field types untouched', _statics_same(vm, st))]
 
 
